@@ -156,6 +156,12 @@ func RunBatch(prop, tier string, seed uint64, start, count int, known map[string
 			res.Faults[k] += r.Faults[k]
 		}
 		for _, k := range SortedKeys(r.Probes) {
+			if strings.HasPrefix(k, "max-") {
+				if r.Probes[k] > res.Probes[k] {
+					res.Probes[k] = r.Probes[k]
+				}
+				continue
+			}
 			res.Probes[k] += r.Probes[k]
 		}
 		res.Ops += r.Ops
